@@ -24,11 +24,23 @@ struct limited_buf : public std::streambuf {
 	}
 };
 
+// a streamable object whose operator<< performs several writes (the template filters must
+// transform the bytes in the order written, whatever the sizes of the individual writes)
+struct pieces { std::vector<std::string> v; };
+static std::ostream &operator<<(std::ostream &out,pieces const &p)
+{
+	for(size_t i=0;i<p.v.size();i++) {
+		if(i%3==2) { for(size_t k=0;k<p.v[i].size();k++) out.put(p.v[i][k]); }   // bytewise
+		else out.write(p.v[i].data(),p.v[i].size());
+	}
+	return out;
+}
+
 static std::string run(std::vector<std::string> const &w)
 {
 	using namespace cppcms;
 	std::string a;
-	if(w.size()>=2 && w[0]!="form" && !vh::unhex(w[1],a) && w[0]!="encsize" && w[0]!="decsize") return "bad-op";
+	if(w.size()>=2 && w[0]!="form" && w[0]!="fltN" && !vh::unhex(w[1],a) && w[0]!="encsize" && w[0]!="decsize") return "bad-op";
 	vh::exact_buf xa(a);   // pointer overloads read from a heap block of exactly a.size() bytes
 	// one output path per op; the model maps all of them to the same function and the
 	// property predicate is judged on each path's own output
@@ -81,6 +93,17 @@ static std::string run(std::vector<std::string> const &w)
 		vh::exact_buf buf(cap);
 		unsigned char *e=b64url::decode(xa.ubegin(),xa.uend(),buf.ubegin());
 		return vh::hex(buf.p,e-buf.ubegin());
+	}
+	// fltN <escape|urlencode|base64> <piece>... : filter applied to an object that writes in pieces
+	if(w.size()>=3 && w[0]=="fltN") {
+		pieces p;
+		for(size_t i=2;i<w.size();i++) { std::string t; if(!vh::unhex(w[i],t)) return "bad-op"; p.v.push_back(t); }
+		std::ostringstream fs;
+		if(w[1]=="escape") fs<<cppcms::filters::escape(p);
+		else if(w[1]=="urlencode") fs<<cppcms::filters::urlencode(p);
+		else if(w[1]=="base64") fs<<cppcms::filters::base64_urlencode(p);
+		else return "bad-op";
+		return vh::hex(fs.str());
 	}
 	// form <widget> <list 0..4> <xhtml 0/1> <valid 0/1> <message> <help> <error> <value>
 	if(w.size()==9 && w[0]=="form") {
